@@ -1,8 +1,8 @@
 """C11 -- list views of a field read the exact values and write back only what changed."""
 import ast
 
-from .. import heap as H, rx, strlang, cfg
-from ..core import AnalysisError, norm, walk_no_nested, calls_in
+from .. import heap as H, rx, strlang, cfg, normalize
+from ..core import AnalysisError, norm, walk_no_nested, calls_in, Func
 
 META = {
     'design_ref': 'DESIGN.md §5 C11',
@@ -380,6 +380,11 @@ def r2_r3_tokenizers(rep, src):
         rep.saw_regex('tokens:' + rname)
         f = src.func('%s:%s' % (TK, fname))
         rep.saw_func(f)
+        node_, inl_ = normalize.inline_yield_from(f)      # generators delegated to with `yield from`: their bodies in place
+        if inl_:
+            for q_ in inl_:
+                rep.saw_func(src.func('%s:%s' % (TK, q_)))
+            f = Func(f.module, node_, f.qual, f.cls)
         star = rx.regex_lang('(?:%s)*' % r['pattern'], r['flags'], 'fullmatch', alpha=alpha)
         # lines handled by the function: by the finditer loop (concatenations of matches) or by a special case in front
         # of it that emits the whole line as one token
